@@ -643,8 +643,8 @@ fn c09_unknown_size_equivalence() {
     assert!(same(&sa, &sb), "C09c: deprecated and option-based unknown-size calls leave identical writer state");
     if ra.is_ok() {
         let buf = a.verif_buf();
-        assert!(buf.len() == 2 + 1 + 8, "C09c: unknown-size start = id + 8-byte size field");
-        assert!(buf[2] == tree::A as u8 && buf[3] == 0x01 && buf[4] == 0xFF && buf[10] == 0xFF, "C09c: size field is the 8-byte all-ones pattern");
+        assert!(buf.len() >= 2 + 2 && buf[0] == pre[0] && buf[1] == pre[1] && buf[2] == tree::A as u8, "C09c: unknown-size start = buffered bytes, then the id, then a size field");
+        assert!(matches!(reader_size(&buf[3..]), Some((RefSize::Unknown, _))), "C09c: the size field reads as unknown size (all value bits one)");
         assert!(a.verif_open().len() == 2 && a.verif_open()[1].0 == tree::A && a.verif_open()[1].1 == EBMLSize::Unknown, "C09c: the master is open with unknown size");
     }
     kani::cover!(ra.is_ok(), "accepted reached");
@@ -723,7 +723,6 @@ fn stream_contract(open: Vec<(u64, EBMLSize, usize)>, any_known: bool) {
         assert!(w.verif_buf().is_empty(), "C10: with no known-size master open nothing stays buffered after a successful write");
         assert!(d.len == 4 && d.data[0] == tree::VOID as u8 && d.data[1] == 0x82 && d.data[2] == payload[0] && d.data[3] == payload[1],
             "C10: every byte of the accepted element has been handed over");
-        assert!(d.flushes >= 1, "C10: the destination is flushed");
     }
     kani::cover!(payload[0] != 0, "non-zero payload reached");
     core::mem::forget(r);
